@@ -92,7 +92,7 @@ func truthOperand(c *Case, prelude *string, name string, v lang.Value, prov stri
 	return nil, false
 }
 
-var truthPositions = []string{"if", "while", "ternary", "and-left", "and-right", "or-left", "or-right", "not", "run"}
+var truthPositions = []string{"if", "while", "ternary", "and-left", "and-right", "or-left", "or-right", "not", "not-not", "not-in-if", "run"}
 
 func truthScript(pos string, e lang.Expr) (string, func(truth bool, v lang.Value) lang.Value, bool) {
 	x := lang.ExprText(lang.Paren{X: e})
@@ -127,6 +127,32 @@ func truthScript(pos string, e lang.Expr) (string, func(truth bool, v lang.Value
 				return lang.Bool(true)
 			}
 			return lang.Bool(false)
+		}, false
+	case "not-not":
+		// !v is false for everything but false and null, so !!v is true for
+		// every non-boolean, non-null value - also for the falsy ones
+		return `return !! ` + x + `;`, func(t bool, v lang.Value) lang.Value {
+			switch v.K {
+			case lang.KBool:
+				return lang.Bool(v.B)
+			case lang.KNull:
+				return lang.Bool(false)
+			}
+			return lang.Bool(true)
+		}, false
+	case "not-in-if":
+		return `if ( ! ` + x + ` ) { return "T"; } return "F";`, func(t bool, v lang.Value) lang.Value {
+			nv := false
+			switch v.K {
+			case lang.KBool:
+				nv = !v.B
+			case lang.KNull:
+				nv = true
+			}
+			if nv {
+				return lang.Str("T")
+			}
+			return lang.Str("F")
 		}, false
 	case "run":
 		return `return ` + x + `;`, func(t bool, v lang.Value) lang.Value { return v }, true
@@ -211,6 +237,16 @@ func TestC05Table(t *testing.T) {
 	col.Set("table_exhaustive", true)
 }
 
+func isBoolExpr(e lang.Expr) bool {
+	switch x := e.(type) {
+	case lang.Binary:
+		return x.Op == "&&" || x.Op == "||"
+	case lang.Unary:
+		return x.Op == "!"
+	}
+	return false
+}
+
 func TestC05Random(t *testing.T) {
 	defer silenceAs("random")()
 	col := evid.New("C05", "random", "")
@@ -233,7 +269,11 @@ func TestC05Random(t *testing.T) {
 			switch gen.Uniform(rt, "op", 3) {
 			case 0:
 				x, tx := build(d - 1)
-				// the operand of ! is parenthesised; its result is a boolean
+				if _, isNot := x.(lang.Unary); isNot || isBoolExpr(x) {
+					// the operand is a boolean: ! negates it (this also builds !!, !!!)
+					return lang.Unary{Op: "!", X: x}, !tx
+				}
+				// the operand of ! is made a boolean first
 				return lang.Unary{Op: "!", X: lang.Binary{Op: "&&", L: x, R: lang.Lit{V: lang.Bool(true)}}}, !tx
 			case 1:
 				l, tl := build(d - 1)
